@@ -122,6 +122,38 @@ def gen_model(ch: Chooser, benign: bool):
                 d["parameter"] = True
         return d
 
+    def attrvar(name, where):
+        """A declaration whose interest lies in its attributes (identical in the nasty and the benign variant)."""
+        ts = ch.choice([{"base": "integer", "kind": None}, {"base": "real", "kind": "kind(1.0d0)"}, {"base": "logical", "kind": None},
+                        {"base": "integer", "kind": "selected_int_kind(9)"}, {"base": "character", "len": "max(2, 3)", "kind": None},
+                        {"base": "complex", "kind": None}])
+        d = _var(name, ts)
+        shape = ch.choice([None, None, "(3)", "(2, 0:4)", "(:)", "(:, :)"])
+        if where == "arg":
+            d["intent"] = ch.choice(["in", "out", "inout", None])
+            d["optional"] = ch.bool(1, 3)
+            if shape in ("(:)", "(:, :)", "(3)"):
+                d["dimattr"] = shape
+            if d["intent"] != "out" and ch.bool(1, 4) and not d["dimattr"] and ts["base"] != "character":
+                d["attrs"].append("value") if not d["optional"] and d["intent"] in ("in", None) else None
+            elif ch.bool(1, 4):
+                d["attrs"].append(ch.choice(["target", "volatile"]))
+            return d
+        if shape in ("(:)", "(:, :)"):
+            d["dimattr"] = shape
+            d["attrs"].append(ch.choice(["allocatable", "pointer"]))
+        elif shape:
+            if ch.bool():
+                d["dimattr"] = shape
+            else:
+                d["ents"][0]["dim"] = shape
+        if where != "component":
+            if "pointer" not in d["attrs"] and ch.bool(1, 3):
+                d["attrs"].append("target")
+            if where == "module" and ch.bool(1, 3):
+                d["attrs"].append(ch.choice(["save", "volatile", "asynchronous"]))
+        return d
+
     n = [0]
 
     def fresh(p):
@@ -136,12 +168,16 @@ def gen_model(ch: Chooser, benign: bool):
     m["decls"] += [lo, hi]
     for _ in range(ch.count(1, 4)):
         m["decls"].append(charvar(fresh("s"), "module") if ch.bool() else relvar(fresh("r"), "module"))
+    for _ in range(ch.count(0, 2)):
+        m["decls"].append(attrvar(fresh("w"), "module"))
     if ch.bool(2, 3):
         t = {"d": "type", "name": "rec_t", "abstract": False, "extends": None, "access": None, "access_how": "attr",
              "sequence": False, "private_comps": False, "comps": [], "private_binds": False, "binds": [], "finals": [],
              "doc": [" type doc"]}
         for _ in range(ch.count(1, 3)):
             t["comps"].append(charvar(fresh("c"), "component") if ch.bool() else relvar(fresh("rc"), "component"))
+        if ch.bool(1, 2):
+            t["comps"].append(attrvar(fresh("wc"), "component"))
         m["decls"].append(t)
     for _ in range(ch.count(1, 2)):
         k = ch.choice(["subroutine", "function"])
@@ -150,6 +186,10 @@ def gen_model(ch: Chooser, benign: bool):
         a = fresh("a")
         p["args"].append(a)
         p["decls"].append(_var(a, S("*"), intent="in"))
+        for _ in range(ch.count(0, 3)):
+            b_ = fresh("b")
+            p["args"].append(b_)
+            p["decls"].append(attrvar(b_, "arg"))
         for _ in range(ch.count(1, 3)):
             p["decls"].append(charvar(fresh("l"), "local") if ch.bool() else relvar(fresh("rl"), "local"))
         if ch.bool(1, 2):
@@ -160,6 +200,12 @@ def gen_model(ch: Chooser, benign: bool):
         if k == "function":
             p["rettype"] = dict(I)
             p["exec"] = [f"{p['name']} = 1"]
+            if ch.bool(1, 2):
+                p["result"] = fresh("Res")          # (mixed case on purpose: the heading shows the source spelling)
+                p["exec"] = [f"{p['result']} = 1"]
+        if ch.bool(1, 3) and all(d.get("d") != "var" or not d.get("intent") or (d["ts"]["base"] != "character" or True) for d in p["decls"]):
+            # a binding label: the literal must be shown as written
+            p["bind"] = {"name": ch.choice(["'Mixed_Case'", '"c_name_2"', "'X'"]) if ch.bool(2, 3) else None}
         m["procs"].append(p)
     return {"files": [{"path": "src/m.f90", "form": "free", "units": [m], "doc": None}]}, feats
 
@@ -177,14 +223,27 @@ def gen_case(ch: Chooser, excl=()):
         # `lower` converts the non-string parts of the source to lower case; character literals must survive
         options["lower"] = True
         feats["lower"] = True
+    heads = []
+    for f in proj_n["files"]:
+        for u in f["units"]:
+            for pr in u.get("procs", []):
+                heads.append({"name": pr["name"], "k": pr["k"], "args": list(pr.get("args", [])), "result": pr.get("result"),
+                              "bind": pr.get("bind")})
     inits = []
+    decls = []
     for d in _walk_vars(proj_n):
         for e in d["ents"]:
             if e.get("init") is not None:
                 inits.append([e["name"], e["init"]])
+            attrs = sorted(set(squash(a_) for a_ in d.get("attrs", [])) | ({"parameter"} if d.get("parameter") else set()) |
+                           ({"optional"} if d.get("optional") else set()) |
+                           ({f"intent({d['intent']})"} if d.get("intent") else set()))
+            decls.append({"name": e["name"], "base": d["ts"]["base"], "kind": squash(d["ts"].get("kind")),
+                          "len": squash(d["ts"].get("len")), "proto": squash(d["ts"].get("proto")),
+                          "dim": squash(e.get("dim") or d.get("dimattr")), "attrs": attrs})
     for f in (files_n, files_b):
         f["project.md"] = site.project_file(options, "body\n")
-    return {"nasty": files_n, "benign": files_b, "inits": inits, "classes": [k for k, v in feats.items() if v],
+    return {"nasty": files_n, "benign": files_b, "inits": inits, "decls": decls, "heads": heads, "classes": [k for k, v in feats.items() if v],
             "nontrivial": feats["nasty"] and feats["rel"]}
 
 
@@ -220,6 +279,83 @@ def build(files):
 
 
 ROW = re.compile(r'<tr>\s*<td>\s*<span class="anchor"[^>]*></span>(.*?)</tr>', re.S)
+
+
+PERMISSIONS = {"public", "private", "protected"}
+
+
+def split_top(text, sep=","):
+    """Split at separators outside parentheses / brackets and character literals."""
+    out, depth, cur, q = [], 0, [], None
+    for c in text:
+        if q:
+            cur.append(c)
+            if c == q:
+                q = None
+            continue
+        if c in "'\"":
+            q = c
+        elif c in "([":
+            depth += 1
+        elif c in ")]":
+            depth -= 1
+        if c == sep and depth == 0:
+            out.append("".join(cur))
+            cur = []
+        else:
+            cur.append(c)
+    out.append("".join(cur))
+    return [x.strip() for x in out if x.strip()]
+
+
+def shown_declarations(raw):
+    """name -> list of what a declaration row shows: base, kind, len, proto, dim, attrs (permission words removed)."""
+    out = {}
+    for m in ROW.finditer(raw):
+        cells = re.findall(r"<td[^>]*>(.*?)</td>", "<td>" + m.group(1), re.S)
+        texts = [_html.unescape(re.sub(r"<[^>]*>", "", c)).replace("\xa0", " ").strip() for c in cells]
+        if "::" not in texts:
+            continue
+        i = texts.index("::")
+        left = split_top(" ".join(t for t in texts[:i] if t).replace(", ,", ","))
+        if not left or len(texts) <= i + 1:
+            continue
+        spec = left[0]
+        mm = re.match(r"^([a-z ]+?)\s*(?:\((.*)\))?$", spec, re.I | re.S)
+        if not mm:
+            continue
+        base = " ".join(mm.group(1).lower().split())
+        kind = ln = proto = None
+        args = split_top(mm.group(2) or "")
+        if base in ("type", "class"):
+            proto = squash(mm.group(2))
+        else:
+            for k, a in enumerate(args):
+                a2 = squash(a)
+                if a2.startswith("kind="):
+                    kind = a2[5:]
+                elif a2.startswith("len="):
+                    ln = a2[4:]
+                elif base == "character" and k == 0:
+                    ln = a2
+                else:
+                    kind = a2
+        attrs, dim = set(), None
+        for a in left[1:]:
+            a2 = squash(a)
+            if a2 in PERMISSIONS:
+                continue
+            if a2.startswith("dimension("):
+                dim = a2[len("dimension"):]
+            else:
+                attrs.add(a2)
+        namecell = texts[i + 1]
+        nm = re.split(r"[(\[*]", namecell)[0].strip().lower()
+        rest = namecell[len(nm):].strip()
+        if rest.startswith("(") and dim is None:
+            dim = squash(rest)
+        out.setdefault(nm, []).append({"base": base, "kind": kind, "len": ln, "proto": proto, "dim": dim, "attrs": sorted(attrs)})
+    return out
 
 
 def shown_initials(raw):
@@ -271,6 +407,41 @@ def check(case) -> Result:
         for rel, v in shown.get(name.lower(), []):
             if squash(v) != exp:
                 res.fail("initial-value-altered", f"{rel}: {name} is declared with {init!r} but shown as {v!r}")
+    # fidelity of the rest of the declaration: type, kind / length, dimensions, attributes
+    shown_d = {}
+    for rel, (sk, raw) in A.items():
+        for nm, rows in shown_declarations(raw).items():
+            shown_d.setdefault(nm, []).extend((rel, r) for r in rows)
+    for d in case.get("decls", []):
+        for rel, r in shown_d.get(d["name"].lower(), []):
+            for field in ("base", "kind", "len", "proto", "dim"):
+                want, got = d[field], r[field]
+                if field == "len" and want is None and d["base"] == "character":
+                    want = "1"
+                if field == "base":
+                    want = " ".join(want.lower().split())
+                if (want or None) != (got or None):
+                    res.fail(f"declaration-altered:{field}", f"{rel}: {d['name']} is declared with {field} {want!r} but shown with {got!r} ({r})")
+            if sorted(d["attrs"]) != r["attrs"]:
+                res.fail("declaration-altered:attributes", f"{rel}: {d['name']} is declared with attributes {d['attrs']} but shown with {r['attrs']}")
+    # procedure headings: argument list, result name, binding label
+    for h in case.get("heads", []):
+        rel = f"proc/{h['name'].lower()}.html"
+        if rel not in A:
+            continue
+        mh = re.search(r"<h2>(.*?)</h2>", A[rel][1], re.S)
+        if not mh:
+            continue
+        text = squash(_html.unescape(re.sub(r"<[^>]+>", "", mh.group(1))))
+        want = squash(f"{h['k']} {h['name']}({', '.join(h['args'])})")
+        if want not in text:
+            res.fail("heading-altered:arguments", f"{rel}: heading {text!r} does not show {want!r}")
+        if h.get("result") and squash(f"result({h['result']})") not in text:
+            res.fail("heading-altered:result", f"{rel}: heading {text!r} does not show result({h['result']})")
+        if h.get("bind") is not None:
+            b = "bind(c" + (f",name={h['bind']['name']}" if h["bind"].get("name") else "") + ")"
+            if squash(b) not in text:
+                res.fail("heading-altered:bind", f"{rel}: heading {text!r} does not show {b}")
     if res.failures:
         ok, err = fordapi.gfortran_check({k: v for k, v in case["nasty"].items() if k.endswith(".f90")})
         if not ok:
